@@ -167,7 +167,9 @@ fn created_obs(cx: &Cx, world: &World, path: &str, e: Entity, with: &[(usize, (u
 /// Execute one op. `world` is exclusive: top level or inside a lazy closure.
 pub fn exec_op(cx: &Cx, world: &mut World, op: &Value) {
     {
-        lock(cx).opno += 1;
+        let mut g = lock(cx);
+        g.opno += 1;
+        crate::store_ops::ALT.with(|a| a.set(g.opno as u32));
     }
     let o = op["o"].as_str().unwrap_or("");
     match o {
@@ -176,6 +178,13 @@ pub fn exec_op(cx: &Cx, world: &mut World, op: &Value) {
             let mut b = world.create_entity();
             for (s, c) in &with {
                 b = cx.stores[*s].with_builder(b, *c);
+            }
+            if op["o"] == "create" && crate::store_ops::ALT.with(|a| a.get()) % 2 == 1 {
+                for s in 0..cx.stores.len() {
+                    if !with.iter().any(|(w, _)| *w == s) {
+                        b = cx.stores[s].without_builder(b);
+                    }
+                }
             }
             let e = b.build();
             created(cx, world, "now", e, &with);
